@@ -186,9 +186,28 @@ func vfGenBloomCase(t *rapid.T) *vfBloomCase {
 	if many {
 		nops = rapid.IntRange(100, 300).Draw(t, "nops2")
 	}
+	// one case in six: many Add/Clear cycles on one small filter without a round trip in between (state that drifts a
+	// little with every cycle only shows after many of them)
+	cycles := rapid.IntRange(0, 5).Draw(t, "cycles") == 0
+	if cycles {
+		c.Entries = float64(rapid.IntRange(1, 300).Draw(t, "centries"))
+		nops = rapid.IntRange(300, 1500).Draw(t, "cnops")
+	}
 	var used []uint64
 	for i := 0; i < nops; i++ {
 		w := rapid.IntRange(0, 99).Draw(t, "op")
+		if cycles {
+			switch {
+			case w < 60:
+				w = 0 // add
+			case w < 80:
+				w = 50 // addifnot
+			case w < 95:
+				w = 75 // has
+			default:
+				w = 85 // clear
+			}
+		}
 		switch {
 		case w < 45:
 			h := vfGenBloomHash(t, used)
@@ -200,7 +219,7 @@ func vfGenBloomCase(t *rapid.T) *vfBloomCase {
 			c.Ops = append(c.Ops, vfBloomOp{Kind: "addifnot", H: h})
 		case w < 85:
 			c.Ops = append(c.Ops, vfBloomOp{Kind: "has", H: vfGenBloomHash(t, used)})
-		case w < 86 || (w < 88 && !many):
+		case w < 86 || (w < 88 && !many) || (cycles && w == 85):
 			c.Ops = append(c.Ops, vfBloomOp{Kind: "clear"})
 		default:
 			c.Ops = append(c.Ops, vfBloomOp{Kind: "roundtrip"})
